@@ -3,20 +3,28 @@ import CoclsModel.MutexPtr
 /-!
 # The pointer-level mutex model refines the list-level model (`MutexPtr.lean` ⊑ `Mutex.lean`) — C07 / C08
 
-* `ChainIs next h l stop` — following `_next` from `h` visits exactly the nodes `l` and ends in `stop`; frame, push,
-  uniqueness, no repetition; `walk_chain`: the loop of `build_queue` is list reversal (`_queue` ends up representing
-  `l.reverse ++ q`) and touches exactly the nodes of `l`.
+* `ChainIs next h l stop` — following `_next` from `h` visits exactly the nodes `l`, none of which is `stop`, and then reaches
+  `stop`; `chain_frame` (writing `_next` of a node outside the chain), `chain_push` (the publishing CAS), `chain_unique`,
+  `chain_nodup`; `walk_chain`: the loop of `build_queue` is list reversal (`_queue` ends up representing `l.reverse ++ q`),
+  writes nothing outside `l` and touches exactly the nodes of `l`.  `StackIs`: `_requests` as the list-level stack.
 * `Repr c ps ls` — the representation relation between a pointer-level state `ps` and a list-level state `ls`: same control
-  part, `_requests` represents `ls.req` (`StackIs`), `_queue` — after the pending loop of the owner, if any, has run —
-  represents `ls.queue`, every linked node is alive and carries the key of its owner's current request, no access
-  violation and no failed assertion so far.
-* **Simulation** `agentStep_sim`: for every activity `(t, a)` permitted by `canRun`, in related states
-  (`Repr c ps ls`, `Inv c ls`), the pointer-level step and the list-level step produce the same events and the same outcome
-  and end in related states.  `arun_sim`/`reachable_repr`: along every guarded activity list from `init`; `abs_of_repr`:
-  the abstraction function `abs` computes `ls` from `ps`; `threadStep_sim`/`trun_sim`: the same for the executor glue
-  (every schedule of enabled OS threads).
-* **Node safety** `step_acc_*`: which nodes a step touches; `noViol` (inside `Repr`): no step touches a node that is not
-  alive; `step_no_conflict`: the next segments of two different agents touch disjoint sets of nodes.
+  part, `_requests` represents `ls.req`, `_queue` — after the pending loop of the owner, if any (`PendIs`), has run — represents
+  `ls.queue`, every linked node is alive and carries the key of its owner's current request, a loop is pending only for the
+  owner right after its exchange (and `_queue` is null then), no access violation and no failed assertion so far.
+* **Simulation.** `agentStep_sim` (one lemma per pc: `sim_top`, `sim_sub`, `sim_build`, `sim_crit`, `sim_unlockStart`,
+  `sim_handOver`, `sim_relBuild`, … ; `reprL_flush`: the pending loop does not change what the pointers represent): in
+  related states with the list-level invariant, the pointer-level activity `(t, a)` and the list-level activity `(t, a)`
+  produce the same events and outcome and end in related states — for every pc, no restriction to `canRun`.
+  `arun_sim`/`repr_run`: along every guarded activity list from `init` (`c.n ≤ wf`: `lists_length_le`, no chain is longer than
+  the number of contenders); `abs_of_repr`/`abs_agentStep`: the abstraction function `abs` computes `ls` from `ps`, so
+  `abs (pstep ps a) = lstep (abs ps) a`; `threadStep_sim`/`trun_sim`/`trun_init_sim`: the same for the executor glue (every
+  schedule of enabled OS threads).
+* **Node safety.** `agentStep_acc`: which nodes an activity touches (its own unpublished node inside `subscribe`, or — as the
+  owner — nodes of agents in the list-level queue); `agentStep_acc_pc`: at which pcs it touches anything; `handover_step`: the
+  accesses of the hand-over in order; `step_no_conflict`: the next segments of two different agents touch disjoint sets of
+  nodes; `noViol`/`noAsrt` (inside `Repr`, `step_no_viol`): no access to a node that is not alive, no failed assertion;
+  `linked_live`, `Links`/`links_unique`/`links_of_repr`: the lists the pointers denote are determined by the pointers, and
+  all their nodes are alive.
 -/
 namespace Cocls.MutexPtr
 open Cocls.Mutex (Elem Seen Flavour Rel Round AKind Cfg Pc TMain Ev Outcome upd nodesL nodesOf seenOf Inv Listed Owner
@@ -281,6 +289,14 @@ theorem walk_chain (a : Nat) (stop : Ptr) : ∀ (l : List Node) (fuel : Nat) (s 
         show (s.acc ++ [_] ++ [_]) ++ walkAcc a l = s.acc ++ walkAcc a (n :: l)
         simp [walkAcc]
       · rw [i5]; rfl
+
+/-- **`walk_reverse`** (the pointer statement alone): the loop of `build_queue`, started on a chain representing `l` with
+    `_queue` representing `q`, ends with `_queue` representing `l.reverse ++ q` -/
+theorem walk_reverse (a : Nat) (stop : Ptr) (l : List Node) (fuel : Nat) (s : State) (req : Ptr) (q : List Node)
+    (hl : ChainIs s.next req l stop) (hq : ChainIs s.next s.queue q Seen.null) (hd : ∀ n ∈ l, n ∉ q)
+    (hlive : ∀ n ∈ l, s.live n = true) (hf : l.length ≤ fuel) :
+    ChainIs (walk a stop fuel s req).next (walk a stop fuel s req).queue (l.reverse ++ q) Seen.null :=
+  (walk_chain a stop l fuel s req q hl hq hd hlive hf).1
 
 /-! ## `_requests` as a stack -/
 
@@ -1628,9 +1644,6 @@ theorem repr_glue {ls : Mutex.State} (hR : Repr c ps ls) (cu : Nat → Option Na
 theorem repr_cur {ls : Mutex.State} (hR : Repr c ps ls) : ps.cur = ls.cur ∧ ps.rq = ls.rq ∧ ps.tmain = ls.tmain := by
   obtain ⟨e, _⟩ := hR
   rw [e]; exact ⟨rfl, rfl, rfl⟩
-
-theorem pair_app {α β} (x : α × List β) (e : List β) :
-    (match x with | (s, e3) => (s, e ++ e3)) = (x.1, e ++ x.2) := by cases x; rfl
 
 /-- **`threadStep` refines `Mutex.threadStep`**: what an OS thread does between two scheduling points, at pointer level and
     at list level, produces the same events and ends in related states. -/
